@@ -108,8 +108,8 @@ type Knobs struct {
 	StartWrk    uint64    `json:"start_wrk"`
 	StartBeacon uint64    `json:"start_beacon"`
 	GovSecs     int64     `json:"gov_secs"`
-	Balance     string    `json:"balance"` // per denom per actor
-	Nodes       []NodeCfg `json:"nodes"`   // replicas (node 0, the reference, is implicit)
+	Balance     string    `json:"balance"`               // per denom per actor
+	Nodes       []NodeCfg `json:"nodes"`                 // replicas (node 0, the reference, is implicit)
 	RefMempool  bool      `json:"ref_mempool,omitempty"` // reference node runs the app-side mempool too
 	// BigReg: a registration that already holds more records than a genesis export carries
 	// (the newest 20,000), injected through genesis with identifier Start-1 and an owner that never signs
@@ -398,7 +398,7 @@ type Node struct {
 	crashTorn bool
 	dbClosed  bool
 	AppOpts   map[string]interface{} // start options shared by every node of the world
-	curRec    *BlockRec // block being executed (for the fault-context measure)
+	curRec    *BlockRec              // block being executed (for the fault-context measure)
 	curK      int
 }
 
